@@ -241,9 +241,53 @@ def env_names_of(soup):
     return names
 
 
-def align(D, T, closers, allow_insert=True):
+class Closers:
+    """Which inserted stretches count as closing delimiters at position j of
+    the output T: '}', ']' and '\\end{X}' for any X such that '\\begin{X}'
+    occurs earlier in T (purely textual: the environment was opened in the text)."""
+
+    def __init__(self, T):
+        self.T = T
+        self.begins = []
+        i = T.find('\\begin{')
+        while i != -1 and len(self.begins) < 400:
+            self.begins.append(i)
+            i = T.find('\\begin{', i + 1)
+        self.cache = {}
+
+    def lengths(self, j):
+        r = self.cache.get(j)
+        if r is not None:
+            return r
+        T = self.T
+        out = []
+        c = T[j:j + 1]
+        if c in ('}', ']'):
+            out.append(1)
+        elif T.startswith('\\end{', j):
+            found = set()
+            for i in self.begins:
+                if i >= j:
+                    break
+                a, b = i + 7, j + 5
+                k = 0
+                n = len(T)
+                while b + k < n:
+                    if T[a + k] == '}' and T[b + k] == '}':
+                        found.add(5 + k + 1)
+                    if a + k >= j or T[a + k] != T[b + k]:
+                        break
+                    k += 1
+                    if k > 5000:
+                        break
+            out.extend(sorted(found, reverse=True))
+        self.cache[j] = out
+        return out
+
+
+def align(D, T, allow_insert=True):
     """Is T == D with (a) closers inserted and (b) whitespace runs of D that
-    stand directly before '{' or '[' dropped?  Returns (ok, n_inserted, why)."""
+    stand directly before '{' or '[' dropped?  Returns (ok, n_inserted, why, at)."""
     if D == T:
         return True, 0, '', None
     nD, nT = len(D), len(T)
@@ -265,10 +309,8 @@ def align(D, T, closers, allow_insert=True):
             i = j
         else:
             i -= 1
-    closers = sorted(closers, key=lambda c: (-len(c), c))
-    # frontier search over (i, j); states form a narrow band around the diagonal
+    closers = Closers(T)
     frontier = {(0, 0): 0}
-    best = (0, 0)
     seen = set()
     while frontier:
         nxt = {}
@@ -278,8 +320,6 @@ def align(D, T, closers, allow_insert=True):
             if (i, j) in seen:
                 continue
             seen.add((i, j))
-            if i + j > best[0] + best[1]:
-                best = (i, j)
             if i < nD and j < nT and D[i] == T[j]:
                 k = (i + 1, j + 1)
                 if k not in nxt or nxt[k] > ins:
@@ -289,15 +329,14 @@ def align(D, T, closers, allow_insert=True):
                 if k not in nxt or nxt[k] > ins:
                     nxt[k] = ins
             if allow_insert and j < nT:
-                for c in closers:
-                    if T.startswith(c, j):
-                        k = (i, j + len(c))
-                        if k not in nxt or nxt[k] > ins + 1:
-                            nxt[k] = ins + 1
+                for ln in closers.lengths(j):
+                    k = (i, j + ln)
+                    if k not in nxt or nxt[k] > ins + 1:
+                        nxt[k] = ins + 1
         frontier = nxt
         if len(seen) > 400_000:
             return True, -1, 'alignment search too large (skipped)', None
-    return _diagnose(D, T, closers if allow_insert else [], droppable)
+    return _diagnose(D, T, closers if allow_insert else None, droppable)
 
 
 def _diagnose(D, T, closers, droppable):
@@ -327,10 +366,9 @@ def _diagnose(D, T, closers, droppable):
             moves.append(((i + 1, j + 1), 0, None))
         if i < nD and droppable[i]:
             moves.append(((i + 1, j), 0, None))
-        if j < nT:
-            for cl in closers:
-                if T.startswith(cl, j):
-                    moves.append(((i, j + len(cl)), 0, None))
+        if j < nT and closers is not None:
+            for ln in closers.lengths(j):
+                moves.append(((i, j + ln), 0, None))
         if i < nD:
             moves.append(((i + 1, j), 1, ('lost', i, j)))
         if j < nT:
@@ -446,10 +484,11 @@ def execute(case, props=('C06', 'C07')):
                                    'statement of the package' % (t, o.exc, o.where), 'tolerance': t}
             if v:
                 break
-        if v is None and any(outs[t].kind != 'tree' for t in (0, 1)):
+        if v is None:
             ok, why = texapi.sanity()
             if not ok:
-                v = {'class': 'poisoned-after-abort', 'detail': why}
+                v = {'class': 'poisoned-after-abort' if any(outs[t].kind != 'tree' for t in (0, 1))
+                     else 'poisoned-process', 'detail': why}
         verdicts['C06'] = v
         if case.get('depth', 0) >= 30:
             count('probe.depth>=30')
@@ -498,26 +537,7 @@ def execute(case, props=('C06', 'C07')):
             if c08_side_conditions(D):
                 count('c07.c.evaluated')
                 T = str(s1.soup)
-                names = env_names_of(s1.soup)
-                # an environment whose *name* is itself TeX (e.g. a broken
-                # \begin{\begin{) prints environments that only exist inside
-                # that name: collect their names by reading the name too
-                from TexSoup import TexSoup as _TS
-                pending = [n for n in names if '\\' in n]
-                for _ in range(45):
-                    nxt = []
-                    if not pending or sum(len(n) for n in pending) > 200_000:
-                        break
-                    for n in pending:
-                        try:
-                            more = env_names_of(_TS(n, tolerance=1)) - names
-                        except Exception:  # noqa: BLE001
-                            more = set()
-                        names |= more
-                        nxt.extend(m for m in more if '\\' in m)
-                    pending = nxt
-                closers = ['}', ']'] + ['\\end{%s}' % n for n in sorted(names)]
-                ok, nins, why, at = align(D, T, closers, allow_insert=(s0.kind != 'tree'))
+                ok, nins, why, at = align(D, T, allow_insert=(s0.kind != 'tree'))
                 if not ok:
                     cls = why.split(' ')[0]
                     extra_summary.update({'D_at': D[at[0]:at[0] + 1], 'D_before': D[:at[0]],
